@@ -59,7 +59,12 @@ CLAIMED = {
               "the complete-indicator coding (C03_tensor_bridge, C03_pick_contrasts_full_rank), and overlapping "
               "intervals are rank deficient. Numeric covariates in general position are not inside the theorem (the "
               "exact-rank oracle decides them); the caller's one-coding-per-term restriction is the listed finding "
-              "KF-C03-2/3, its class decided by the extracted model." + COMMON),
+              "KF-C03-2/3, its class decided by the extracted model. Numeric-categorical interactions "
+              "(C03_numeric_part.v): the factor of a:N is coded in full iff the numeric part N -- the product term "
+              "itself -- is not a term of the model, for any surrounding terms other than numeric-categorical "
+              "interactions and any position; main effects of the numerics do not count; each row of a full block sums "
+              "to the numeric product; the widened rule (main effects count) is shown to differ and to lose x*z on a "
+              "computed design." + COMMON),
         design_ref="DESIGN.md section 5 C03, section 10",
         technique="Coq proof: interval-partition theorem for the contrast analysis + MathComp tensor bridge to rank/span; rank oracle; correspondence"),
     "C04": dict(
@@ -82,7 +87,7 @@ CLAIMED = {
               "entry (i, j) = the effect's value if observation i is in the cell and 0 * that value otherwise (0, or NaN "
               "under pass: refuted 'always 0 elsewhere'), group cell slowest and effect fastest, terms in order; response, "
               "common and group matrices are row-aligned for every accepted design and every na_action. "
-              "Listed finding KF-C04-1: a spline basis without any column keeps one label." + COMMON),
+              "Listed finding KF-C04-2: a spline basis without any column keeps one label." + COMMON),
         design_ref="DESIGN.md section 5 C04, section 10",
         technique="Coq proof: labelled Kronecker product / indicator coding; differential correspondence; label-denotation oracle"),
     "C05": dict(
